@@ -464,9 +464,30 @@ def run(chk, arim, rng, quick):
         cases.append((lit, key, replay))
         chk.count(tie_C01=kind)
 
+    crashed = []
+
+    def guard(fn):
+        """an exception while an input is being built / observed (e.g. a valid FermatPath is rejected) is a disagreement of
+        that stream, not the end of the tie"""
+        def wrapped(*a, **k):
+            try:
+                return fn(*a, **k)
+            except Exception as e:  # noqa: BLE001
+                import traceback
+                crashed.append(fn.__name__)
+                if crashed.count(fn.__name__) <= 2:
+                    chk.violation(f"tie:{fn.__name__}:exception",
+                                  f"the {fn.__name__} stream of the C01 tie could not observe arim.ray on a valid input: "
+                                  f"{type(e).__name__}: {e}"[:300],
+                                  {"correspondence": f"{fn.__name__} of harness/ties/tie_C01.py (inputs accepted by Model/FermatGlue.v)",
+                                   "arguments": repr(a)[:1500], "traceback": traceback.format_exc()[-1500:]},
+                                  failing_input_found=False)
+        return wrapped
+
     # =================================================================================================================
     # 1. FermatPath as a tuple
     # =================================================================================================================
+    @guard
     def tuple_case(cloud, pts, back, seq, kind):
         ec, fp, msg = call(ray.FermatPath, seq)
         new = (ec, items_of(fp, back) if ec == 0 else None)
@@ -584,6 +605,7 @@ def run(chk, arim, rng, quick):
                 modes.append("T")
         return core.Path(tuple(inter), tuple(mats), tuple(modes), name=name)
 
+    @guard
     def from_case(cloud, pts, back, ids, vs, kind, real=False, nmodes=None):
         if real:
             ec, fp, msg = call(lambda: real_path(pts, ids, vs, "q").to_fermat_path())
@@ -637,6 +659,7 @@ def run(chk, arim, rng, quick):
     # =================================================================================================================
     # 3. the solver object and its dictionary; _solve on the tuple
     # =================================================================================================================
+    @guard
     def solve_case(cloud, group, container, k, kind):
         pts, back = make_points(cloud)
         memo = {}
@@ -711,6 +734,7 @@ def run(chk, arim, rng, quick):
         solve_case(cloud, group, container, pick([1, 1, 2, 3]), f"{what}:{container}")
 
     # ---- the solver in another index dtype ------------------------------------------------------------------------
+    @guard
     def dt_case(cloud, lit, b, kind):
         pts, back = make_points(cloud)
         fp = make_fp(pts, lit)
@@ -750,6 +774,7 @@ def run(chk, arim, rng, quick):
     def wobs_of(ident, R):
         return (ident, rays_obs(R), flags(R.times), flags(R.indices))
 
+    @guard
     def rt_case(cloud, objs_spec, container, fortran, kind):
         """objs_spec: list of (ident, ids, vs); equal ident = the same Python object"""
         pts, back = make_points(cloud)
@@ -827,6 +852,7 @@ def run(chk, arim, rng, quick):
             what = f"rt:fault:{f}"
         rt_case(cloud, specs, pick(["list", "tuple", "iter", "generator"]), chance(0.5), what)
 
+    @guard
     def views_case(cloud, group, nviews, fortran, kind):
         pts, back = make_points(cloud)
         paths = []
@@ -876,6 +902,7 @@ def run(chk, arim, rng, quick):
             a[...] = np.asarray(values, dtype=np.int64).reshape(shape).astype(dtype)
         return a
 
+    @guard
     def makeidx_case(b, lay, shape, arg, kind, values=None):
         d, n, m = shape
         if values is None:
@@ -944,6 +971,7 @@ def run(chk, arim, rng, quick):
         t, ix = R.times, R.indices
         return (tuple(int(x) for x in t.shape), t.tolist(), flags(t), ix.tolist(), flags(ix), ix.dtype.itemsize * 8)
 
+    @guard
     def rays_case(cloud, seq_ids, vs, two, tshape, shape, b, tlay, ilay, arg, kind, end_number=None, values=None):
         pts, back = make_points(cloud)
         seq = [pts[seq_ids[0]]]
